@@ -1153,3 +1153,196 @@ example :
   · rfl
 
 end MG.C04R
+
+/-! ## the failure path -/
+
+namespace MG.C04R
+open MG.Eng MG.ND MG.C13
+
+theorem opStepOut_err (h : Heap) (kind : Kind) (inputs : List Operand) (out : Arr) (e : Err)
+    (hw : outWrite kind ((wrapOperands h inputs).2.map fun i =>
+            (wrapOperands h inputs).1.val ((wrapOperands h inputs).1.t i).data) out.d.shape
+            ((wrapOperands h inputs).1.read out) none = .error e) :
+    opStepOut h kind inputs none none out = .error e := by
+  unfold opStepOut
+  simp only
+  rw [hw]
+
+/-- the failure path of `inPlaceMutate` on the one-node graph: the old graph is restored on the heap that holds
+the (unused) copy of the base -/
+theorem mutate_single_fail (H : Heap) (x p : Nat) (kind : Kind) (inputs : List Operand) (e : Err)
+    (hcc : (H.t x).data.d.isCContig = true) (hph : ∀ i, Operand.t i ∈ inputs → i ≠ p)
+    (hro : H.ro.contains (H.t x).data.buf = false)
+    (hw : let w := wrapOperands (copyH H x).1 (inputs.map (phMap x p))
+          outWrite kind (w.2.map fun i => w.1.val (w.1.t i).data) (copyH H x).2.d.shape (w.1.read (copyH H x).2) none
+            = .error e) :
+    inPlaceMutate H (G1 x p) x true kind inputs none none = .error (e, (G1 x p).restore (copyH H x).1) := by
+  unfold inPlaceMutate
+  simp only [G1_base, Heap.copyArrK, hcc, if_true, G1_node_x, Option.isNone_some, Bool.false_eq_true, if_false]
+  show (do
+    let (target, chain) ← withHeap (copyH H x).1 (inPlaceTarget (copyH H x).1 (G1 x p) x (copyH H x).2)
+    _) = _
+  rw [G1_target]
+  have hro' : (copyH H x).1.ro.contains (H.t x).data.buf = false := hro
+  simp only [withHeap, Bind.bind, Except.bind, List.any_nil, hro', Bool.or_self, Bool.false_eq_true, if_false]
+  rw [map_phMap x p _ (fun i => rfl) (fun v => rfl) inputs hph]
+  rw [show (H.newArr (H.val (H.t x).data)).fst = (copyH H x).1 from rfl, opStepOut_err _ _ _ _ _ hw]
+  simp only [Bool.false_or, hro', Bool.false_eq_true, if_false]
+
+end MG.C04R
+
+namespace MG.C04R
+open MG.Eng MG.ND MG.C13
+
+theorem dupH_tensors (h : Heap) (x : Nat) (hx : x < h.next) :
+    (∀ t, t ≠ h.next → (dupH h x).t t = (nullGrad h x).t t) ∧
+    (dupH h x).t h.next = { (nullGrad h x).t x with base := none } := by
+  have hne : h.next ≠ x := by omega
+  obtain ⟨rt, _, _, _⟩ := reroute_spec (phHeap (nullGrad (nullGrad h x) x) x) h.next x hne
+  have hnn : ∀ t, (nullGrad (nullGrad h x) x).t t = (nullGrad h x).t t := by
+    intro t
+    unfold nullGrad
+    by_cases e : t = x
+    · subst e; simp
+    · rw [t_modT_ne _ _ _ _ e]
+  have hn : (nullGrad (nullGrad h x) x).next = h.next := rfl
+  refine ⟨fun t ht => ?_, ?_⟩
+  · show (reroute _ _ _).t t = _
+    rw [rt t]
+    simp only [phHeap, mirror, fresh_snd, hn]
+    rw [t_modT_ne _ _ _ _ ht, t_setT_ne _ _ _ _ ht]
+    exact hnn t
+  · show (reroute _ _ _).t h.next = _
+    rw [rt]
+    simp only [phHeap, mirror, fresh_snd, hn, t_modT_self, t_setT_self]
+    show ({ (nullGrad (nullGrad h x) x).t x with base := none } : Tens) = _
+    rw [hnn x]
+
+/-- **inplace_on_owner_failure_leaves_no_trace.**  If the NumPy-level statement is rejected (`outWrite` fails:
+bad index, shapes that do not broadcast, …), the in-place update on a tensor without live views raises that error
+and leaves a heap in which every tensor that existed is exactly as `x.null_grad()` leaves it (value, flag, base,
+creator, consumers, view children — only `x`'s stale gradient is gone), every buffer that existed is unchanged and
+every op has exactly its old variables: the placeholder is no longer referenced by anything. -/
+theorem inplace_on_owner_failure_leaves_no_trace (h : Heap) (roots : List Nat) (x : Nat) (kind : Kind)
+    (inputs : List Operand) (e : Err)
+    (hx : x < h.next) (hbase : (h.t x).base = none)
+    (hnov : liveChildren h (liveSet h roots) x = [])
+    (hvc : ∀ c ∈ (h.t x).vchildren, c ≠ x ∧ c ≠ h.next)
+    (hcc : (h.t x).data.d.isCContig = true)
+    (hro : h.ro.contains (h.t x).data.buf = false)
+    (hwf : ∀ o ∈ inputs, WFop h o) (hxbuf : (h.t x).data.buf < h.next)
+    (hfresh : ∀ f, h.next ∉ (h.op f).vars)
+    (hw : outWrite kind (inputs.map (operandVal h)) (h.t x).data.d.shape (h.read (h.t x).data) none = .error e) :
+    ∃ hf, inPlaceOp h roots x kind inputs = .error (e, hf) ∧
+      (∀ t, t < h.next → hf.t t = (nullGrad h x).t t) ∧
+      (∀ b, b < h.next → hf.buf b = h.buf b) ∧
+      (∀ f, (hf.op f).vars = (h.op f).vars) := by
+  have hne : h.next ≠ x := by omega
+  obtain ⟨dB, dN, dT, dPd, dPc, dPv⟩ := dupH_spec h x hx
+  obtain ⟨dxd, dxc, dxv⟩ := dT x (Ne.symm hne)
+  obtain ⟨tT, tP⟩ := dupH_tensors h x hx
+  obtain ⟨cA, cN, cT, cB, cR⟩ := copyH_spec (dupH h x) x
+  have hbuf : ∀ b, (dupH h x).buf b = h.buf b := fun b => by simp only [Heap.buf, dB]
+  have hpre := prelude_owner h (liveSet h roots) x hbase
+  have hnb : ((nullGrad h x).t x).base = none := by simp [nullGrad, hbase]
+  have hlc : liveChildren (nullGrad h x) (liveSet h roots) x = [] := by
+    unfold liveChildren at hnov ⊢
+    have : ((nullGrad h x).t x).vchildren = (h.t x).vchildren := by simp [nullGrad]
+    rw [this]; exact hnov
+  have hdup := mkDupGraph_no_views (nullGrad h x) (liveSet h roots) x hx hnb hlc
+  have hph : ∀ i, Operand.t i ∈ inputs → i ≠ h.next := fun i hi => by
+    have := (hwf _ hi).1; omega
+  -- the operands as the guarded call sees them (as in the success case)
+  have hwfC : ∀ o ∈ inputs.map (phMap x h.next), WFop (copyH (dupH h x) x).1 o := by
+    intro o ho
+    obtain ⟨o0, ho0, rfl⟩ := List.mem_map.mp ho
+    cases o0 with
+    | lit v => exact hwf _ ho0
+    | t i =>
+      obtain ⟨i1, i2⟩ := hwf _ ho0
+      show swapVar x h.next i < (copyH (dupH h x) x).1.next ∧ ((copyH (dupH h x) x).1.t (swapVar x h.next i)).data.buf < _
+      rw [cN, dN, cT]
+      have hd : ((dupH h x).t (swapVar x h.next i)).data = (h.t i).data := by
+        unfold swapVar
+        by_cases e : i = x
+        · subst e; simp only [if_true]; exact dPd
+        · simp only [e, if_false]; exact (dT i (by omega)).1
+      rw [hd]
+      refine ⟨?_, by omega⟩
+      unfold swapVar; split <;> omega
+  have hvalC : (inputs.map (phMap x h.next)).map (operandVal (copyH (dupH h x) x).1) = inputs.map (operandVal h) := by
+    rw [List.map_map]
+    apply List.map_congr_left
+    intro o ho
+    cases o with
+    | lit v => rfl
+    | t i =>
+      obtain ⟨i1, i2⟩ := hwf _ ho
+      show (copyH (dupH h x) x).1.val ((copyH (dupH h x) x).1.t (swapVar x h.next i)).data = h.val (h.t i).data
+      rw [cT]
+      have hd : ((dupH h x).t (swapVar x h.next i)).data = (h.t i).data := by
+        unfold swapVar
+        by_cases e : i = x
+        · subst e; simp only [if_true]; exact dPd
+        · simp only [e, if_false]; exact (dT i (by omega)).1
+      rw [hd]
+      have hb1 : (h.t i).data.buf ≠ (dupH h x).next := by rw [dN]; omega
+      rw [val_congr (dupH h x) _ _ (cB _ hb1), val_congr h _ _ (hbuf _)]
+  obtain ⟨wv, _⟩ := wrap_vals (inputs.map (phMap x h.next)) (copyH (dupH h x) x).1 hwfC
+  have hshape : (copyH (dupH h x) x).2.d.shape = (h.t x).data.d.shape := by rw [cA, dxd]; rfl
+  have eW := wrap_ext (inputs.map (phMap x h.next)) (copyH (dupH h x) x).1
+  have hread : (wrapOperands (copyH (dupH h x) x).1 (inputs.map (phMap x h.next))).1.read (copyH (dupH h x) x).2
+      = h.read (h.t x).data := by
+    have hb0 : (copyH (dupH h x) x).2.buf < (copyH (dupH h x) x).1.next := by rw [cA, cN]; show (dupH h x).next < _; omega
+    have : (wrapOperands (copyH (dupH h x) x).1 (inputs.map (phMap x h.next))).1.read (copyH (dupH h x) x).2
+        = (copyH (dupH h x) x).1.read (copyH (dupH h x) x).2 := by
+      simp only [Heap.read, eW.2.2.1 _ hb0]
+    rw [this, cA]
+    have e2 : ({ buf := (dupH h x).next, d := Desc.contig 0 ((dupH h x).t x).data.d.shape } : Arr) =
+        ((dupH h x).newArr ((dupH h x).val ((dupH h x).t x).data)).2 := rfl
+    rw [e2]
+    show ((dupH h x).newArr _).1.read _ = _
+    rw [read_newArr _ _ (by simp [Heap.val, read_length])]
+    simp only [Heap.val, dxd]
+    simp only [Heap.read, hbuf]
+  have hw' : (let w := wrapOperands (copyH (dupH h x) x).1 (inputs.map (phMap x h.next))
+      outWrite kind (w.2.map fun i => w.1.val (w.1.t i).data) (copyH (dupH h x) x).2.d.shape
+        (w.1.read (copyH (dupH h x) x).2) none = .error e) := by
+    simp only
+    rw [wv, hvalC, hshape, hread]; exact hw
+  have hcc' : ((dupH h x).t x).data.d.isCContig = true := by rw [dxd]; exact hcc
+  have hro' : (dupH h x).ro.contains ((dupH h x).t x).data.buf = false := by rw [dxd, dupH_ro]; exact hro
+  have hmut := mutate_single_fail (dupH h x) x h.next kind inputs e hcc' hph hro' hw'
+  -- the restored heap
+  have hCp : (copyH (dupH h x) x).1.t h.next = { (nullGrad h x).t x with base := none } := by rw [cT]; exact tP
+  have hvcC : ∀ c ∈ ((copyH (dupH h x) x).1.t h.next).vchildren, c ≠ x ∧ c ≠ h.next := by
+    rw [hCp]; simp only [nullGrad, t_modT_self]; exact hvc
+  have hbC : ((copyH (dupH h x) x).1.t h.next).base = none := by rw [hCp]
+  have hrest : (G1 x h.next).restore (copyH (dupH h x) x).1 = reroute (copyH (dupH h x) x).1 x h.next :=
+    restore_single _ x h.next (Ne.symm hne) hvcC hbC
+  obtain ⟨r2t, r2b, _, r2v⟩ := reroute_spec (copyH (dupH h x) x).1 x h.next (Ne.symm hne)
+  refine ⟨(G1 x h.next).restore (copyH (dupH h x) x).1, ?_, ?_, ?_, ?_⟩
+  · unfold inPlaceOp
+    simp only [hpre, hnb, Option.isNone_none, Option.getD_none]
+    rw [hdup]
+    exact hmut
+  · intro t ht
+    rw [hrest, r2t, cT, tT t (by omega)]
+  · intro b hb
+    rw [hrest]
+    simp only [Heap.buf, r2b]
+    have := cB b (by rw [dN]; omega)
+    simp only [Heap.buf] at this
+    rw [this]; exact hbuf b
+  · intro f
+    rw [hrest, r2v f]
+    have hops : ((copyH (dupH h x) x).1.t h.next).ops = (h.t x).ops := by
+      rw [hCp]; simp [nullGrad]
+    have hopf : (copyH (dupH h x) x).1.op f = (dupH h x).op f := rfl
+    rw [hops, hopf, dupH_ops h x hx f]
+    by_cases hf : f ∈ (h.t x).ops
+    · simp only [hf, if_true]
+      exact restore_reroutes_back _ _ _ (hfresh f)
+    · simp [hf]
+
+end MG.C04R
